@@ -10,7 +10,7 @@ CONSTANTS
 INIT Init
 NEXT Next
 VIEW ViewNoOut
-CONSTRAINT Depth6
+CONSTRAINT Depth5
 INVARIANTS DirtyLoaded EncHeld
 PROPERTIES FailStutters UntouchedUnwritten HeldStable CommitAllOrNothing
 CHECK_DEADLOCK FALSE
